@@ -14,7 +14,7 @@ from . import _c16_spec as S
 
 SERIES_P = 0.1  # share of (non-clean) pandas cases that use Series[T] / Index[T] annotations
 ATTRS = ["a", "b", "c", "d", "e", "f"]
-ALIASES = ["x", "y", "z", "w", 2020, 0, ""]  # (0 and "" are legal labels: falsy is not the same as absent)
+ALIASES = ["x", "y", "key", "col_1", "z", "w", 2020, 0, ""]  # (0 and "" are legal labels: falsy is not the same as absent)
 # regex field names: pattern -> (matching labels, a non-matching label)
 REGEX_FIELDS = {"^r[0-9]$": (["r1", "r2"], "rx"), "s.": (["s1", "sa"], "s"), "t1|t2": (["t1", "t2"], "t3")}
 CHECK_PATTERNS = [".", "^[a-c]$", "x|y", "a", "^[d-z]"]
@@ -102,6 +102,12 @@ def gen_field_kwargs(d, backend, kind, *, allow_alias, used_names, style):
             fk["isin"] = sorted(d.subset(range(-2, 8), 2, 8))
         if d.p(0.06):
             fk["notin"] = sorted(d.subset(range(-2, 8), 1, 3))
+        if d.p(0.07):  # several built-in checks on one field: their order is part of the schema (first failing check, report order)
+            a = d.int(-3, 3)
+            fk["in_range"] = {"min_value": a, "max_value": a + d.int(2, 8)}
+            fk[d.choice(["isin", "notin"])] = sorted(d.subset(range(-2, 8), 2, 4))
+            if d.p(0.5):
+                fk["ne"] = d.int(0, 5)
         if backend == "pandas" and d.p(0.06):
             fk["c16_le"] = d.int(3, 8)
     elif kind == "str":
@@ -115,6 +121,11 @@ def gen_field_kwargs(d, backend, kind, *, allow_alias, used_names, style):
             fk["str_length"] = d.choice([{"min_value": 0, "max_value": 2}, {"max_value": 3}, {"min_value": 1}])
         if d.p(0.06):
             fk["str_matches"] = d.choice(["a", "^[ab]+$", "[abc]*"])
+        if d.p(0.07):
+            fk["str_length"] = d.choice([{"min_value": 0, "max_value": 2}, {"max_value": 3}, {"min_value": 1}])
+            fk["str_matches"] = d.choice(["a", "^[ab]+$", "[abc]*"])
+            if d.p(0.5):
+                fk["str_startswith"] = d.choice(["a", "b", ""])
         if d.p(0.08):
             fk["isin"] = sorted(d.subset(DOMAIN["str"], 2, 7))
         if d.p(0.06):
@@ -325,6 +336,12 @@ def gen_config(d, spec, ci, eff):
         opts["coerce"] = d.choice([True, True, False])
     if names and d.p(0.12):
         opts["unique"] = d.subset(names, 1, 2)
+        if len(opts["unique"]) == 1 and d.p(0.5):
+            opts["unique"] = opts["unique"][0]  # a single column may be given as a bare string
+    elif d.p(0.06):
+        long = [n for n in names if len(n) > 1]
+        if long:
+            opts["unique"] = d.choice(long)
     if d.p(0.08):
         opts["unique_column_names"] = True
     if d.p(0.15):
